@@ -1,5 +1,5 @@
 """C09 — Aggregation returns one row per group, and one row without grouping (executor-model part + oracle)."""
-from .. import oracles
+from .. import oracles, pipes
 from .refsem import suite
 
 PROPERTY = "C09"
@@ -44,6 +44,18 @@ def oracle_C09_full(case, **opts):
     fs = list(oracles.oracle_C09(case, ctx=ctx, **opts) or [])
     for f in oracles.oracle_C27(case, ctx=ctx, **opts) or []:
         fs.append(dict(f, kind=f["kind"].replace("C27:", "C09:window-")))
+    # the Polars executor with its eager option (PolarsModel(use_lazy_eval=False), which the default registration never
+    # uses): the row count must be the one the default (lazy) model returns
+    try:
+        if ctx.ops is not None:
+            lazy = pipes.run_polars(ctx.ops, case["tables"])
+            eager = pipes.run_polars(ctx.ops, case["tables"], eager_model=True)
+            if "ok" in lazy and "ok" in eager and len(lazy["ok"]["rows"]) != len(eager["ok"]["rows"]):
+                fs.append({"kind": "C09:polars-eager-row-count", "finding": None, "candidate": None,
+                           "detail": f"Polars with use_lazy_eval=False returns {len(eager['ok']['rows'])} rows, the default "
+                                     f"lazy model {len(lazy['ok']['rows'])}"})
+    except Exception:
+        pass
     return fs
 
 SUITES = [suite(PROPERTY, oracle_C09_full, CANDS, n_quick=120, n_thorough=500,
